@@ -28,10 +28,10 @@ CONST_FIELDS = ("_params", "_loop", "_keep_alive_interval", "_keep_alive_timeout
 MUT_FIELDS = [f for f in CONN_FIELDS if f not in CONST_FIELDS]
 REGIONS = {
     "Timer.armed": (BoolS, None), "Timer.when": (RealS, None), "Timer.cb": (ObjS, None), "Timer.arg": (ObjS, None),
-    "Future.done": (BoolS, None), "Future.exc": (ObjS, None),
+    "Future.done": (BoolS, None), "Future.exc": (ObjS, None), "Future.cancelled": (BoolS, None),
     "FH.closed": (BoolS, None), "FH.ready": (ObjS, None), "Socket.closed": (BoolS, None),
 }
-GHOST_AUX = {"arrivals": "seq[obj]", "narr": "int", "hello_passed": "bool"}
+GHOST_AUX = {"arrivals": "seq[obj]", "narr": "int", "hello_passed": "bool", "hello_checked": "bool", "login_checked": "bool"}
 RELY_ONLY = {"S11-only-a-connect-phase-advances-the-state", "S12-only-a-connect-phase-attaches-transport"}      # guaranteed by every function that is not a connect phase; relied on by the phases      # per-call ghost outputs (not part of the connection state)
 GHOST = {
     "stop_calls": "int", "stop_arg": "bool", "graceful": "bool", "now": "real",
@@ -588,6 +588,19 @@ def install(eng, check_tags=None):
     eng.obj_methods[("Loop", "call_at")] = loop_call_at
     eng.obj_methods[("Loop", "create_future")] = loop_create_future
     eng.obj_methods[("Timer", "cancel")] = timer_cancel
+    def fut_cancelled(eng_, st, recv, args, kwargs):
+        # a cancelled future is done (asyncio): the two regions are tied together where `cancelled` is read
+        c_ = rget(eng_, st, "Future.cancelled", recv.e)
+        st.fact(z3.Implies(c_, rget(eng_, st, "Future.done", recv.e)))
+        return ok(st, VBool(c_))
+
+    def fut_cancel(eng_, st, recv, args, kwargs):
+        d = rget(eng_, st, "Future.done", recv.e)
+        rset(eng_, st, "Future.cancelled", recv.e, z3.Or(rget(eng_, st, "Future.cancelled", recv.e), z3.Not(d)))
+        rset(eng_, st, "Future.done", recv.e, z3.BoolVal(True))
+        return ok(st, VBool(z3.Not(d)))
+    eng.obj_methods[("Future", "cancelled")] = fut_cancelled
+    eng.obj_methods[("Future", "cancel")] = fut_cancel
     eng.obj_methods[("Future", "done")] = fut_done
     eng.obj_methods[("Future", "set_result")] = fut_set(False)
     eng.obj_methods[("Future", "set_exception")] = fut_set(True)
@@ -1125,6 +1138,10 @@ def havoc_world(eng, st, selfref, reentrant_only=False):
         for r in ("FH.closed", "Socket.closed"):
             if r in old_regions:
                 st.assume(z3.Implies(z3.Select(old_regions[r], e), z3.Select(st.regions[r], e)))
+        if "Future.cancelled" in old_regions:
+            st.assume(z3.Implies(z3.Select(old_regions["Future.cancelled"], e), z3.Select(st.regions["Future.cancelled"], e)))
+            st.assume(z3.Implies(z3.And(z3.Select(old_regions["Future.done"], e), z3.Not(z3.Select(old_regions["Future.cancelled"], e))),
+                                 z3.Not(z3.Select(st.regions["Future.cancelled"], e))))
         if "FH.ready" in old_regions:
             st.assume(z3.Select(st.regions["FH.ready"], e) == z3.Select(old_regions["FH.ready"], e))
     for k in ckeys:      # Step S9 (handler entries are never removed), instantiated for the class keys this frame can name
